@@ -53,6 +53,11 @@ def cases(tier, seed):
                 cs.append({'scen': 'copies', 's': dict(s, op='to_other', to='complex128')})
             if dt == 'float32':
                 cs.append({'scen': 'copies', 's': dict(s, op='to_other', to='float64')})
+    # single-core operators with a row or column mode of size one (dense evaluation must keep both modes)
+    for N, M in [([5], [1]), ([1], [4]), ([1], [1])]:
+        for op in ('numpy', 'clone', 'cpu', 'to_same'):
+            cs.append({'scen': 'copies', 's': {'N': N, 'M': M, 'R': [1, 1], 'dtype': 'float64', 'op': op}})
+        cs.append({'scen': 'save_load_cores', 's': {'N': N, 'M': M, 'R': [1, 1], 'dtype': 'float64'}})
     # copies of an object whose cores are watched by autograd
     for N, R, M in [([2, 3], [1, 2, 1], None), ([2, 2, 2], [1, 2, 2, 1], None), ([2, 2], [1, 2, 1], [2, 1])]:
         for w in ([], [1]):
